@@ -2,15 +2,15 @@
     what validating a log does to the memory behind the log.
 
     Main result ([vap_keeps], [vfc_keeps]): if the range slices of the log lie
-    inside their arrays, two of them are either the same window or disjoint
-    ([WFheap]), and no slice with fewer than two ranges has spare capacity
-    ([NoSmallSpare]), then ValidatorActorsAreProtected and
-    ValidatorFinalCoverageIsComplete change the backing arrays only by sorting
-    windows in place: afterwards every slice of the log holds a permutation of
-    the ranges it held before ([kept]), hence every reference of the log denotes
-    the same bytes ([kept_den]) and any later pass is given the same flow.
-    Without [NoSmallSpare] this fails ([keeps_refuted]; finding
-    C10-shared-backing-append). *)
+    inside their arrays and two of them are either the same window or disjoint
+    ([WFheap]) -- whatever their capacities are --, then
+    ValidatorActorsAreProtected and ValidatorFinalCoverageIsComplete change the
+    backing arrays only by sorting windows in place: afterwards every slice of
+    the log holds a permutation of the ranges it held before ([kept]), hence
+    every reference of the log denotes the same bytes ([kept_den]) and any later
+    pass is given the same flow.  (References.SortAndMerge re-allocates before it
+    appends; the log with a one-range slice with spare capacity that the former
+    finding C10-shared-backing-append was about is [bad_log] below.) *)
 From Coq Require Import Permutation.
 From CSS Require Import Lib.Base Model.Ranges Model.Refs Model.Validators Model.ValidatorsHeap
   Proofs.Ranges Proofs.Refs.
@@ -27,9 +27,6 @@ Definition sep (w w' : sl) : Prop :=
 Definition WFheap (h : heap) (W : list sl) : Prop :=
   Forall (inb h) W /\ forall w w', In w W -> In w' W -> same_win w w' \/ sep w w'.
 
-Definition NoSmallSpare (W : list sl) : Prop :=
-  forall w, In w W -> (sl_len w < 2)%nat -> sl_cap w = sl_len w.
-
 (** [h] is [h0] up to the order of the ranges inside each window of [W] *)
 Definition kept (h0 : heap) (W : list sl) (h : heap) : Prop :=
   (forall a, length (nth a h []) = length (nth a h0 [])) /\
@@ -37,15 +34,6 @@ Definition kept (h0 : heap) (W : list sl) (h : heap) : Prop :=
 
 Lemma kept_refl h W : kept h W h.
 Proof. split; intros; reflexivity. Qed.
-
-Lemma no_small_spare_spec l : no_small_spare l = true <-> NoSmallSpare (windows l).
-Proof.
-  unfold no_small_spare, NoSmallSpare. rewrite forallb_forall. split; intros H w I.
-  - intros Lt. specialize (H w I). unfold small_ok in H. apply Bool.orb_true_iff in H.
-    destruct H as [H | H]; [apply Nat.leb_le in H; lia | apply Nat.eqb_eq in H; exact H].
-  - unfold small_ok. destruct (2 <=? sl_len w)%nat eqn:E; [reflexivity|]. apply Nat.leb_gt in E.
-    cbn [orb]. apply Nat.eqb_eq. apply H; assumption.
-Qed.
 
 (** ** Reading and writing windows *)
 
@@ -151,7 +139,6 @@ Section Keep.
   Variable h0 : heap.
   Variable W : list sl.
   Hypothesis WF : WFheap h0 W.
-  Hypothesis NSS : NoSmallSpare W.
 
   Lemma kept_inb h w : kept h0 W h -> In w W -> inb h w.
   Proof.
@@ -200,14 +187,11 @@ Section Keep.
     - eexists. split; [reflexivity | exact I].
   Qed.
 
-  Lemma app_small h x vals : rok2 x -> exists x', app_rs h x vals = (h, x') /\ rok2 x'.
+  (** the append of the grouping loop never writes: the holder stays what it was
+      or becomes an array of the validator's own *)
+  Lemma app_small h x vals : rok2 x -> rok2 (app_rs h x vals).
   Proof.
-    intros R. unfold app_rs. destruct vals as [|v vs]; [eexists; split; [reflexivity | exact R]|].
-    destruct x as [s | l]; [|eexists; split; [reflexivity | exact I]].
-    destruct R as (I & T). rewrite (NSS s I T).
-    replace (sl_len s + length (v :: vs) <=? sl_len s)%nat with false
-      by (symmetry; apply Nat.leb_gt; cbn [length]; lia).
-    eexists. split; [reflexivity | exact Logic.I].
+    intros R. unfold app_rs. destruct vals as [|v vs]; [exact R | exact I].
   Qed.
 
   Lemma rsm_all_keeps : forall l h h' l', kept h0 W h -> Forall hok l -> rsm_all h l = (h', l') ->
@@ -232,8 +216,7 @@ Section Keep.
       constructor; [exact R | constructor].
     - inversion F as [|? ? Hr Ht]; subst.
       destruct (art_eqb (h_art r) (h_art cur) && mapper_eqb (h_map r) (h_map cur)).
-      + destruct (app_small h (h_rs cur) (val h (h_rs r)) C) as (x & -> & R).
-        apply IH; [exact R | exact Ht].
+      + apply IH; [exact (app_small h (h_rs cur) (val h (h_rs r)) C) | exact Ht].
       + destruct (rs_len (h_rs cur)).
         * apply IH; assumption.
         * destruct (rsm_small h (h_rs cur) C) as (x & -> & R).
@@ -257,10 +240,10 @@ Section Keep.
     kept h0 W h' /\ forall out, o = Ok out -> Forall hok out.
   Proof.
     intros K F E. unfold hsm in E.
-    destruct s as [|a [|b t]]; try (inversion E; subst; split; [exact K | intros out [= <-]; exact F]).
-    destruct (hconflict (a :: b :: t)); [inversion E; subst; split; [exact K | discriminate]|].
-    destruct (hsorted (hsort (a :: b :: t))); [|inversion E; subst; split; [exact K | discriminate]].
-    destruct (rsm_all h (hsort (a :: b :: t))) as (h1, s1) eqn:E1.
+    destruct s as [|a t]; [inversion E; subst; split; [exact K | intros out [= <-]; constructor]|].
+    destruct (hconflict (a :: t)); [inversion E; subst; split; [exact K | discriminate]|].
+    destruct (hsorted (hsort (a :: t))); [|inversion E; subst; split; [exact K | discriminate]].
+    destruct (rsm_all h (hsort (a :: t))) as (h1, s1) eqn:E1.
     destruct (rsm_all_keeps _ _ _ _ K (hsort_forall _ _ F) E1) as (K1 & F1).
     destruct s1 as [|r t1]; [inversion E; subst; split; [exact K1 | intros out [= <-]; constructor]|].
     inversion F1; subst.
@@ -316,7 +299,8 @@ Section Keep.
     destruct (hsm h2 prev) as (h3, o3) eqn:E3.
     destruct (hsm_keeps _ _ _ _ K2 Fp E3) as (K3 & _).
     destruct o3 as [s1| | |]; try exact K3.
-    destruct (excl_walk (map (hval h3) s0) (map (hval h3) s1)) as [[|n nt]| | |]; exact K3.
+    destruct (excl_walk (map (hval h3) s0) (map (hval h3) s1)) as [nm| | |]; try exact K3.
+    destruct (has_bytes nm); exact K3.
   Qed.
 
   Lemma hvap_go_keeps : forall l h idx measured pa,
@@ -353,12 +337,12 @@ Section Keep.
   Proof.
     induction l as [|st t IH]; intros h measured h' o K I Fm E; cbn [hvfc_measured] in E.
     - inversion E; subst. split; [exact K|]. intros m [= <-]. exact Fm.
-    - assert (Fn : Forall hok (map alias (hs_meas st))).
-      { apply alias_ok. intros w Hw. apply I. cbn [windows flat_map]. apply in_or_app. left.
+    - assert (Fn : Forall hok (fst (hresolve h (map alias (hs_meas st))))).
+      { apply hresolve_ok, alias_ok. intros w Hw. apply I. cbn [windows flat_map]. apply in_or_app. left.
         unfold step_windows. apply in_or_app. left. exact Hw. }
       assert (It : incl (windows t) W).
       { intros w Hw. apply I. cbn [windows flat_map]. apply in_or_app. right. exact Hw. }
-      destruct (hsm h (measured ++ map alias (hs_meas st))) as (h1, o1) eqn:E1.
+      destruct (hsm h (measured ++ fst (hresolve h (map alias (hs_meas st))))) as (h1, o1) eqn:E1.
       destruct (hsm_keeps _ _ _ _ K (proj2 (Forall_app _ _ _) (conj Fm Fn)) E1) as (K1 & F1).
       destruct o1 as [m| | |]; try (inversion E; subst; split; [exact K1 | discriminate]).
       apply (IH h1 m h' o K1 It (F1 m eq_refl) E).
@@ -391,7 +375,7 @@ Section Keep.
     destruct o as [measured| | |]; try exact K1.
     specialize (F1 measured eq_refl).
     destruct files as [[|f ft]| | |]; try exact K1.
-    destruct (sm (f :: ft)) as [s0| | |]; try exact K1.
+    destruct (sm (resolved (f :: ft))) as [s0| | |]; try exact K1.
     destruct (hsm h1 measured) as (h2, o2) eqn:E2.
     destruct (hsm_keeps _ _ _ _ K1 F1 E2) as (K2 & F2).
     destruct o2 as [s1| | |]; try exact K2.
@@ -437,28 +421,24 @@ Ltac wf_closed :=
     repeat (destruct Hw' as [<- | Hw']; [|]); try contradiction;
     first [ left; repeat split; reflexivity | right; unfold sep; cbn; lia ] ].
 
-(** Finding C10-shared-backing-append inside the model.  Step 0 measures the one
-    range [32,40) through a slice with len 1 and cap 2, step 1 measures [16,24),
-    step 2 hands control to an actor living in [32,40).  The first validation is
-    right (no issue) but leaves [16,24) in the slice of step 0; the second
-    validation of the same log reports the actor. *)
+(** The log of the former finding C10-shared-backing-append.  Step 0 measures the
+    one range [32,40) through a slice with len 1 and cap 2, step 1 measures
+    [16,24), step 2 hands control to an actor living in [32,40).  (The code used
+    to append [16,24) into the spare element of the slice of step 0, so that a
+    second validation of the same log reported the actor.)  Now: the memory is
+    left as it was and both passes report nothing. *)
 Definition bad_heap : heap := [[]; [mkR 32 8; mkR 0 0]; [mkR 16 8]; [mkR 32 8]].
 Definition bad_log : list hstep :=
   [mkHS None None [wl MNil 1 0 1 2] [];
    mkHS None None [wl MNil 2 0 1 1] [];
    mkHS (Some 1) (Some [wl MNil 3 0 1 1]) [] []].
 
-Theorem keeps_refuted : exists h l,
-  WFheap h (windows l) /\
-  ~ kept h (windows l) (fst (hvap h l)) /\
-  snd (hvap h l) = Ok [] /\
-  exists v, snd (hvap (fst (hvap h l)) l) = Ok [v] /\ vi_step v = 2 /\ vi_kind v = 4.
-Proof.
-  exists bad_heap, bad_log. split; [wf_closed|]. split.
-  - intros (_ & P). specialize (P (mkSl 1 0 1 2) ltac:(cbn; auto)).
-    vm_compute in P. apply Permutation_length_1 in P. discriminate.
-  - split; [vm_compute; reflexivity|]. eexists. split; [vm_compute; reflexivity|]. split; reflexivity.
-Qed.
+Lemma bad_log_wf : WFheap bad_heap (windows bad_log).
+Proof. wf_closed. Qed.
+
+Lemma bad_log_kept :
+  hvap bad_heap bad_log = (bad_heap, Ok []) /\ hvfc bad_heap (Err 1) bad_log = (bad_heap, Ok [mkVI 2 5 [] []]).
+Proof. split; vm_compute; reflexivity. Qed.
 
 (** The hypotheses of [vap_keeps] / [vfc_keeps] are satisfiable by a log whose
     validation does write to memory: step 0 measures three ranges out of order
@@ -469,10 +449,8 @@ Definition ok_log : list hstep :=
   [mkHS None None [wl MNil 1 0 3 4] [];
    mkHS (Some 1) (Some [wl MNil 1 0 3 4]) [wl MNil 2 0 1 1] []].
 
-Lemma ok_log_hyps : WFheap ok_heap (windows ok_log) /\ NoSmallSpare (windows ok_log).
-Proof.
-  split; [wf_closed|]. apply no_small_spare_spec. vm_compute. reflexivity.
-Qed.
+Lemma ok_log_hyps : WFheap ok_heap (windows ok_log).
+Proof. wf_closed. Qed.
 
 Lemma ok_log_sorted :
   fst (hvap ok_heap ok_log) = [[]; [mkR 16 4; mkR 32 4; mkR 48 4; mkR 0 0]; [mkR 8 4]].
